@@ -6,7 +6,7 @@ PROP = {
     "bin": "c05",
     "harness_args": ["C05"],
     "profiles": ["dev"],
-    "rule": "streams: corpus of histories; exhaustive (every start URL of a 43-URL pool x every operation kind x every argument of an 85-string delimiter-rich pool, one step each); random histories of 1-8 mutating calls (Url::set_*, set_ip_host, path_segments_mut sessions, quirks setters) from pool or randomly generated parsed URLs. After steps the model and the implementation are compared on the whole record (serialization, 7 offsets, host kind, port) and status, the read accessors and the quirks getters. Non-trivial = every step/observation (each has a non-empty URL); distinct = distinct request lines. In search mode (after a proof or the correspondence broke) the byte/delimiter statement of C05 (harness/src/urlprops.rs prop_c05) is evaluated on the implementation.",
+    "rule": "streams: corpus of histories; exhaustive (every start URL of a 43-URL pool x every operation kind x every argument of an 85-string delimiter-rich pool, one step each); random histories of 1-8 mutating calls (Url::set_*, set_ip_host, path_segments_mut sessions, quirks setters) from pool or randomly generated parsed URLs. After steps the model and the implementation are compared on the whole record (serialization, 7 offsets, host kind, port) and status, the read accessors and the quirks getters. Non-trivial = every step/observation (each has a non-empty URL); distinct = distinct request lines. The bin is harness/src/bin/c05.rs = urlhist.rs (copied verbatim by tools/mk_c05_bin.py, which also checks for drift) + a directed search. In search mode (after a proof or the correspondence broke) the byte/delimiter statement of C05 (harness/src/urlprops.rs prop_c05) is evaluated on the implementation: first on the steps where model and implementation differ (urlhist), then - because a mutated percent-encode set changes the regenerated model exactly as it changes the implementation - on the implementation alone: 14 URL templates x 134 characters (all ASCII + 6 non-ASCII) placed in userinfo / path / query / fragment / opaque path of special, file and non-special URLs, and every start URL x every single operation x every pool argument; the known class F-C02-3 is skipped.",
     "trusted_base": [
         "Model/Parser.v, Model/Setters.v, Model/UrlRecord.v are hand-written models of url/src/{parser,lib,slicing,quirks,path_segments}.rs tied to the code only by the correspondence",
         "the sets CONTROLS, FRAGMENT, PATH, USERINFO, PATH_SEGMENT, SPECIAL_PATH_SEGMENT, QUERY, SPECIAL_QUERY and ENC_TABLE are regenerated from url/src/parser.rs and percent_encoding/src/lib.rs on every run (tools/gen_tables.py); the table theorems are re-proved on the regenerated values",
